@@ -193,7 +193,9 @@ def routing(ctx: Ctx):
     rng = random.Random(ctx.seed)
     base = open(tlc.SPEC_DIR + "/MC_Factory.cfg").read()
     noliv = base.replace("PROPERTY Terminates\n", "")
-    model = tlc.must(tlc.run("Factory", cfg_text=noliv if ctx.quick else base, workers=16, timeout=7200), "Factory model")
+    # quick: fields are scalars, structural types and named wrappers (442 k states); thorough adds direct class fields and liveness
+    small = noliv.replace("Direct = TRUE", "Direct = FALSE")
+    model = tlc.must(tlc.run("Factory", cfg_text=small if ctx.quick else base, workers=16, timeout=7200), "Factory model")
     states, trans = model.distinct, model.generated
     if not ctx.quick:
         m2 = tlc.must(tlc.run("Factory", cfg_text=noliv.replace("MaxFields = 2", "MaxFields = 1")
@@ -202,7 +204,7 @@ def routing(ctx: Ctx):
         states += m2.distinct; trans += m2.generated
     for cfg, inv in (("MC_Factory_alias.cfg", "RoutingCorrect"), ("MC_Factory_pinned.cfg", "RoutingCorrect"),
                      ("MC_Factory_reuse.cfg", "RootIsReal"), ("MC_Factory_get.cfg", "RoutingCorrect")):
-        r = tlc.run("Factory", cfg, workers=8, timeout=1800)
+        r = tlc.run("Factory", cfg, workers=8, timeout=1800)      # one field per class is enough for each counterexample
         if r.ok or inv not in r.stdout:
             raise tlc.MachineryError(f"Factory model not sensitive: {cfg} must violate {inv}")
     ecfg = (noliv.replace("Emit = FALSE", "Emit = TRUE").replace("INVARIANT BuildNeverFails", "INVARIANT EmitCase\nCONSTRAINT InitOnly"))
@@ -212,7 +214,7 @@ def routing(ctx: Ctx):
     cases = {json.dumps(p, sort_keys=True): p for p in em.printed if isinstance(p, dict) and "topo" in p}
     cases = [cases[k] for k in sorted(cases)]
     ncases = len(cases)
-    cases = rng.sample(cases, min(len(cases), 2500 if ctx.quick else 60000))
+    cases = rng.sample(cases, min(len(cases), 1500 if ctx.quick else 60000))
     clear_typelib_caches()
     events, meta, drift = [], [], []
     for k, c in enumerate(cases):
